@@ -1168,3 +1168,46 @@ Proof.
       destruct (0 <? extra_q) eqn:E3; [right; lia|left; reflexivity]. }
     destruct (fz <? lz + bz) eqn:E1; destruct (fq <? lq + bq) eqn:E2; repeat split; try lia; assumption.
 Qed.
+
+(* ---- the epoch cursor of the model IS the code: CanPerformEpochUpdate and checkAndPerformUpdateEpoch
+   (vm/embedded/implementation/common.go) as translated by go2coq on every run. The end time of epoch LastEpoch+1 (the
+   epoch ticker's ToTime), the frontier momentum and the result of LastEpochUpdate.Save are inputs of the translations. *)
+Lemma update_due_is_source g dur now last :
+  ZV.gen.Pure.CanPerformEpochUpdate 0 now (epoch_end g dur (wrapS 64 (last + 1))) =
+  if update_due g dur now last then 0 else ZV.gen.Pure.Err_constants_ErrEpochUpdateTooRecent.
+Proof.
+  unfold ZV.gen.Pure.CanPerformEpochUpdate, update_due. cbv zeta. change (0 =? 0) with true. cbn [negb].
+  destruct (now <? wrapS 64 (epoch_end g dur (wrapS 64 (last + 1)) + RewardTimeLimit)); reflexivity.
+Qed.
+
+Lemma cursor_step_is_source g dur now last saved :
+  ZV.gen.Pure.checkAndPerformUpdateEpoch last
+    (ZV.gen.Pure.CanPerformEpochUpdate 0 now (epoch_end g dur (wrapS 64 (last + 1)))) saved =
+  if update_due g dur now last then (saved, wrapS 64 (last + 1))
+  else (ZV.gen.Pure.Err_constants_ErrEpochUpdateTooRecent, last).
+Proof.
+  rewrite update_due_is_source. unfold ZV.gen.Pure.checkAndPerformUpdateEpoch. cbv zeta.
+  destruct (update_due g dur now last); reflexivity.
+Qed.
+
+(* one turn of `for { checkAndPerformUpdateEpoch; compute }` is one turn of update_loop *)
+Lemma update_loop_unfold_source k g dur now last :
+  update_loop (S k) g dur now last =
+  match ZV.gen.Pure.checkAndPerformUpdateEpoch last
+          (ZV.gen.Pure.CanPerformEpochUpdate 0 now (epoch_end g dur (wrapS 64 (last + 1)))) 0 with
+  | (0, last') => match update_loop k g dur now last' with
+                  | Some (es, l') => Some (last' :: es, l')
+                  | None => None
+                  end
+  | (_, _) => Some ([], last)
+  end.
+Proof.
+  rewrite cursor_step_is_source. cbn [update_loop].
+  destruct (update_due g dur now last); reflexivity.
+Qed.
+
+(* the contract-level update gate (CanPerformUpdate): due iff UpdateMinNumMomentums momentums passed, uint64 arithmetic *)
+Lemma update_gate_is_source h lastu :
+  ZV.gen.Pure.CanPerformUpdate 0 h 0 lastu =
+  if wrapU 64 (lastu + UpdateMinNumMomentums) <=? h then 0 else ZV.gen.Pure.Err_constants_ErrUpdateTooRecent.
+Proof. reflexivity. Qed.
